@@ -591,9 +591,7 @@ theorem loadIdx_fold_cfg (loc : String) (docs : List (String × AItem)) (b : ASy
 
 @[simp] theorem evLoad_cfg (a : ASys) (loc : String) (docs : List (String × AItem)) : (evLoad a loc docs).cfg = a.cfg := by
   simp only [evLoad]
-  cases a.kind
-  · simp only; rw [loadIdx_fold_cfg]
-  · simp only; rw [loadLin_fold_cfg]
+  rw [loadIdx_fold_cfg]
 
 @[simp] theorem step_cfg (a : ASys) (ev : AEv) : (step a ev).cfg = a.cfg := by
   cases ev with
@@ -751,15 +749,8 @@ theorem regSound_step {a : ASys} (ev : AEv) (h : RegSound a) : RegSound (step a 
   | clear loc => exact regSound_of_sub (by simp [step]) (evClear_reg_sub a loc) h
   | load loc docs =>
     simp only [step, evLoad]
-    cases a.kind
-    · simp only
-      apply loadIdx_fold_regSound
-      intro k e hk; exact h k e hk
-    · simp only
-      intro k e hk
-      rw [loadLin_fold_reg] at hk
-      rw [loadLin_fold_cfg]
-      exact h k e hk
+    apply loadIdx_fold_regSound
+    intro k e hk; exact h k e hk
   | cronReset =>
     simp only [step, evCronReset]
     split
@@ -799,9 +790,7 @@ theorem loadLin_fold_items_other (l loc id : String) (hl : l ≠ loc) (docs : Li
 theorem evLoad_items_other (a : ASys) (l loc id : String) (hl : l ≠ loc) (docs : List (String × AItem)) :
     aGet (evLoad a l docs).items (loc, id) = aGet a.items (loc, id) := by
   simp only [evLoad]
-  cases a.kind
-  · simp only; rw [loadIdx_fold_items_other l loc id hl]; simp [itemsNotOf_get, Ne.symm hl]
-  · simp only; rw [loadLin_fold_items_other l loc id hl]; simp [itemsNotOf_get, Ne.symm hl]
+  rw [loadIdx_fold_items_other l loc id hl]; simp [itemsNotOf_get, Ne.symm hl]
 
 theorem absent_step {a : ASys} {loc id : String} (ev : AEv) (hn : NoStore loc id [ev] = true)
     (h : aGet a.items (loc, id) = none) : aGet (step a ev).items (loc, id) = none := by
@@ -1002,12 +991,7 @@ theorem run_cfg (a : ASys) (evs : List AEv) : (run a evs).cfg = a.cfg := by
     have : run a (ev :: rest) = run (step a ev) rest := rfl
     rw [this, ih, step_cfg]
 
-theorem evLoad_indexed (a : ASys) (loc : String) (docs : List (String × AItem)) (hk : a.kind = .indexed) :
+theorem evLoad_fold (a : ASys) (loc : String) (docs : List (String × AItem)) :
     evLoad a loc docs =
-      docs.foldl (fun a d => evAdd a loc d.1 d.2 true) { a with items := itemsNotOf a.items loc } := by
-  unfold evLoad; rw [hk]
+      docs.foldl (fun a d => evAdd a loc d.1 d.2 true) { a with items := itemsNotOf a.items loc } := rfl
 
-theorem evLoad_linear (a : ASys) (loc : String) (docs : List (String × AItem)) (hk : a.kind = .linear) :
-    evLoad a loc docs =
-      docs.foldl (fun a d => { a with items := aSet a.items (loc, d.1) d.2 }) { a with items := itemsNotOf a.items loc } := by
-  unfold evLoad; rw [hk]
